@@ -133,6 +133,16 @@ def generate(rng, tier, mult):
         pd = pipegen.gen_pipeline(rng, nmax=5)
         if rng.random() < 0.4:
             pd = _extra_funcs(rng, pd)
+        if rng.random() < 0.15:            # differing defaults on parameters that are fed by another function
+            alloutputs = set(pipegen.outputs_of(pd))
+            fs = []
+            for f in pd["funcs"]:
+                f = dict(f)
+                fed = [c for c, _ in f["params"] if c in alloutputs and c not in f["bound"]]
+                if fed and rng.random() < 0.6:
+                    f["defs"] = dict(f["defs"], **{rng.choice(fed): "alt_" + f["name"]})
+                fs.append(f)
+            pd = {"funcs": fs}
         if rng.random() < 0.5:
             q = list(pd["funcs"])
             rng.shuffle(q)
